@@ -8,12 +8,24 @@ from harness.composed import Sim, honest_policy, replay_actions
 _canon_cache = {}
 
 
+BURST_ORDER = ("open", "set_code", "allocate", "input", "send", "proc", "turn", "rx", "choose_nameplate", "choose_words", "stopped")
+
+
+def sim_args(cfg):
+    return {k: v for k, v in cfg.items() if k != "canon"}
+
+
 def canonical(cfgname, configs, close=True):
     key = (cfgname, close)
     if key not in _canon_cache:
-        sim = Sim(**configs[cfgname])
+        cfg = configs[cfgname]
+        sim = Sim(**sim_args(cfg))
         try:
-            tr = sim.canonical(honest_policy(close=close))
+            if cfg.get("canon") == "burst":
+                # application calls first (all send_message calls are issued before anything is delivered)
+                tr = sim.canonical(honest_policy(close=close, order=BURST_ORDER))
+            else:
+                tr = sim.canonical(honest_policy(close=close))
         finally:
             sim.close_world()
         _canon_cache[key] = tr
@@ -73,7 +85,7 @@ class Explore(Job):
         if not span:
             raise core._Abort()
         p = span[eng().choose(len(span), "prefix")]
-        sim = Sim(**self.configs[self.cfg])
+        sim = Sim(**sim_args(self.configs[self.cfg]))
         sched = []
         eng().inputs["prefix"] = p
         eng().inputs["sched"] = sched
@@ -99,7 +111,7 @@ class Explore(Job):
 
     def replay(self, inp, label):
         canon = canonical(self.cfg, self.configs, self.canonical_close)
-        sim = Sim(**self.configs[self.cfg])
+        sim = Sim(**sim_args(self.configs[self.cfg]))
         try:
             if not replay_actions(sim, canon[:inp["prefix"]]):
                 return None
